@@ -84,6 +84,13 @@ pub const CONTROL: Alphabet = Alphabet {
     binary: &["JumpIfTrue", "JumpIfFalse", "ElseJump", "And", "Or", "Addition"],
 };
 
+/// source text of the i-th control-flow skeleton with at most `max_nodes` nodes (spaced layout), if it is printable
+pub fn control_source(index: u64, max_nodes: usize) -> Option<String> {
+    let ast = CONTROL.unrank(index, max_nodes)?;
+    let printed = if ast.contains_def("Group") { printable_keep_groups(&ast) } else { printable(&ast) };
+    printed.map(|(toks, _, _)| crate::model::refparse::render(&toks, crate::model::refparse::Layout::Spaced))
+}
+
 impl Alphabet {
     /// number of trees with exactly n nodes
     pub fn count_exact(&self, n: usize, memo: &mut Vec<u64>) -> u64 {
